@@ -16,7 +16,8 @@ RULE = (
     "wingbox; mirrored point masses/thrusts, weight relief, fuel) must have mirror-symmetric disp, loads, def_mesh, "
     "sec_forces and von Mises stresses.  (c) left_right_geometry: the same wing as left-half and right-half symmetric model "
     "through the Geometry group with drawn design variables (control points reversed for the right half) must give mirrored "
-    "meshes and equal CL, CD, CM.  non-trivial = lifting; (a) beta or rates or asymmetry non-zero; distinct by digest."
+    "meshes and equal CL, CD, CM.  (d) full_span_geometry_mirror: an asymmetric full-span wing (unequal half spans) through "
+    "the Geometry group with drawn design variables and sideslip against its mirror image.  non-trivial = lifting; (a) beta or rates or asymmetry non-zero; distinct by digest."
 )
 ASSUMPTIONS = [
     "tolerance 1e-9 relative (aero), 1e-7 (aerostructural: coupled solver atol 1e-12)",
@@ -264,10 +265,72 @@ def lr_verdict(desc):
     return out
 
 
+# ------------------------------------------------------------------------------------------------------------------ (d)
+@st.composite
+def fs_cfg(draw):
+    """full-span (symmetry off) asymmetric wing through the Geometry group with design variables, against its mirror image"""
+    md = draw(S.mesh(kinds=("asym", "full"), nx=(2, 3), nyh=(2, 4), noise=False, winglet=False, root_offsets=True, max_twist=0.0,
+                     max_camber=0.0))
+    md["root_twist"] = 0.0  # flat chords: the Rotate no-op finding (KF-C13-rotate) concerns pre-twisted chords with dihedral
+    ncp = draw(st.integers(1, 4))
+    use = draw(st.lists(st.sampled_from(["twist", "chord", "xshear", "yshear", "zshear", "span", "sweep", "dihedral", "taper"]),
+                        min_size=1, max_size=5, unique=True))
+    if "twist" in use:
+        # twist about a reference axis with z-slope is the recorded Rotate behaviour; keep the axis planar
+        md["side"]["dihedral"] = 0.0
+        if "right" in md:
+            md["right"]["dihedral"] = 0.0
+        use = [u for u in use if u not in ("dihedral", "zshear")]
+    return dict(
+        mesh=md, ncp=ncp, use=use,
+        twist_cp=[draw(S.fl(-6.0, 6.0, 0.0)) for _ in range(ncp)],
+        chord_cp=[draw(S.fl(0.5, 2.0, 1.0)) for _ in range(ncp)],
+        xshear_cp=[draw(S.fl(-0.5, 0.5, 0.0)) for _ in range(ncp)],
+        yshear_cp=[draw(S.fl(-0.2, 0.2, 0.0)) for _ in range(ncp)],
+        zshear_cp=[draw(S.fl(-0.5, 0.5, 0.0)) for _ in range(ncp)],
+        span_factor=draw(S.fl(0.5, 2.0, 1.0)),
+        sweep=draw(S.fl(-20.0, 30.0, 10.0)), dihedral=draw(S.fl(-10.0, 15.0, 5.0)), taper=draw(S.fl(0.3, 1.5, 0.6)),
+        ref_axis_pos=draw(st.sampled_from([0.25, 0.0, 0.6, 1.0])),
+        alpha=draw(S.fl(-5.0, 10.0, 4.0)), beta=draw(S.fl(-10.0, 10.0, 0.0)),
+        mode="main",
+    )
+
+
+def fs_verdict(desc):
+    out = Outcome()
+    m1 = build_mesh(desc["mesh"])
+    m2 = mirror_mesh(m1)
+    s1 = _lr_surface(desc, m1, False)
+    s2 = _lr_surface(desc, m2, True)
+    for s, m in ((s1, m1), (s2, m2)):
+        s["symmetry"] = False
+        if "span" in desc["use"]:
+            s["span"] = float(m[0, -1, 1] - m[0, 0, 1]) * desc["span_factor"]
+    p1 = aero_geom_problem([s1], dict(alpha=desc["alpha"], beta=desc["beta"]))
+    p1.run_model()
+    p2 = aero_geom_problem([s2], dict(alpha=desc["alpha"], beta=-desc["beta"]))
+    p2.run_model()
+    span = float(np.max(np.abs(m1[:, :, 1])))
+    out.close("fs/mesh", mirror_mesh(p2.get_val("wing.mesh")), p1.get_val("wing.mesh"), rtol=1e-10, scale=span)
+    for c in ("CL", "CD"):
+        out.close("fs/" + c, p2.get_val("aero_point_0." + c), p1.get_val("aero_point_0." + c), rtol=1e-9, atol=1e-13)
+    out.close("fs/CM", p2.get_val("aero_point_0.CM") * np.array([-1.0, 1.0, -1.0]), p1.get_val("aero_point_0.CM"), rtol=1e-9,
+              atol=1e-12)
+    F1 = p1.get_val("aero_point_0.aero_states.wing_sec_forces")
+    F2 = p2.get_val("aero_point_0.aero_states.wing_sec_forces")
+    out.close("fs/sec_forces", F2[:, ::-1, :] * R, F1, rtol=1e-9)
+    for u in desc["use"]:
+        out.label("fsdv=" + u)
+    out.label("fs-kind=" + desc["mesh"]["kind"])
+    out.nontrivial = bool(abs(float(p1.get_val("aero_point_0.CL")[0])) > 1e-6)
+    return out
+
+
 SUBS = [
     Sub("aero_mirror", aero_cfg(), aero_verdict, quick=640, thorough=12000),
     Sub("as_symmetry", as_cfg(), as_verdict, quick=200, thorough=4000),
     Sub("left_right_geometry", lr_cfg(), lr_verdict, quick=400, thorough=8000),
+    Sub("full_span_geometry_mirror", fs_cfg(), fs_verdict, quick=320, thorough=8000),
     Sub("right_half_dv_probe", lr_cfg(mode="probe_dv"), lr_verdict, quick=32, thorough=300, max_shards=4),
     Sub("right_half_rotate_probe", lr_cfg(mode="probe_rotate"), lr_verdict, quick=16, thorough=150, max_shards=4),
 ]
